@@ -322,6 +322,9 @@ class Exec(object):
             if sO is not None:
                 outs.append(self.raise_(sO, 'AttributeError'))
         if sRef is not None:
+            if attr == 'args' and sRef.entails(sub(TYP(Val.addr(o)), K('BaseException'))):
+                # exception.args: a tuple of any length (an argument-less exception has an empty one)
+                t = sRef.new_seq(EXCARGS(Val.addr(o)), 'tuple'); outs.append((sRef, ('val', t))); return outs
             k = self.kind_of(sRef, o)
             cn = k if isinstance(k, str) else (k[1] if k else None)
             if cn in getattr(self, 'attr_get', {}):
@@ -754,6 +757,18 @@ class Exec(object):
 
     def s_Expr(self, n, st):
         if isinstance(n.value, ast.Yield):
+            cms = getattr(self, 'cm_stack', [])
+            if cms and cms[-1]['fid'] == st.stack[-1]:
+                # the single yield of a generator context manager: run the with-body here (contextlib protocol).  A raising body is re-raised at
+                # the yield; any other body outcome is parked and the generator continues normally after the yield.
+                cm = cms[-1]
+                if st.g.get('parked', {}).get(cm['fid']) is not None:
+                    raise Unsupported('second yield in a context manager')
+                outs = []
+                for s2, boc in cm['resume'](st):
+                    s2.g['parked'] = dict(s2.g.get('parked', {})); s2.g['parked'][cm['fid']] = boc
+                    outs.append((s2, boc if boc[0] == 'raise' else ('normal',)))
+                return outs
             if not self.generator:
                 return [(st, ('yield',))]
             outs = []
@@ -926,6 +941,38 @@ class Exec(object):
             return outs
         raise Unsupported('augassign target')
 
+    def s_Delete(self, n, st):
+        outs = [(st, ('normal',))]
+        for t in n.targets:
+            nxt = []
+            for s1, oc in outs:
+                if oc[0] != 'normal':
+                    nxt.append((s1, oc)); continue
+                if isinstance(t, ast.Subscript) and isinstance(t.slice, ast.Slice) and t.slice.lower is None and t.slice.upper is None and t.slice.step is None:
+                    for s2, r in self.ev(t.value, s1):          # del xs[:]  -- empties the list in place
+                        if r[0] == 'exc': nxt.append((s2, ('raise', r[1]))); continue
+                        h = self.hook('mutate', s2, r[1], 'clear', [], n)
+                        if h is not None: nxt += h; continue
+                        if not self.is_kind(s2, r[1], 'list'): raise Unsupported('del x[:] on a value of unknown kind')
+                        s2.set_seq(r[1], z3.Empty(SeqV)); a = s2._aclass(s2.addr_of(r[1]))
+                        if a[0] == 'new': s2.g.setdefault('spine', {})[a[1]] = []
+                        nxt.append((s2, ('normal',)))
+                elif isinstance(t, ast.Subscript):
+                    for s2, rs in self.evs([t.value, t.slice], s1):
+                        if rs[-1][0] == 'exc': nxt.append((s2, ('raise', rs[-1][1]))); continue
+                        o, k = rs[0][1], rs[1][1]
+                        if not self.is_kind(s2, o, 'dict'): raise Unsupported('del x[k] on a value of unknown kind')
+                        sH, sM = self.fork(s2, s2.dhas(o, k))
+                        if sM is not None: nxt.append((sM, ('raise', sM.exc_obj('KeyError'))))
+                        if sH is not None:
+                            sH.ddel(o, k); nxt.append((sH, ('normal',)))
+                elif isinstance(t, ast.Name):
+                    s1.frames[s1.stack[-1]].pop(t.id, None); nxt.append((s1, ('normal',)))
+                else:
+                    raise Unsupported('del target')
+            outs = nxt
+        return outs
+
     def s_Break(self, n, st):
         return [(st, ('break',))]
 
@@ -981,36 +1028,21 @@ class Exec(object):
 
     def s_Try(self, n, st, resume=None):
         outs = []
-        for s1, oc in self.block(n.body, st):
-            if oc[0] == 'yield':
-                # a generator context manager suspended inside this try: run the with-body, then resume the generator (contextlib
-                # protocol): a raising body is re-raised at the yield; any other body outcome is parked and the generator continues
-                # normally after the yield (do_with decides what the finished generator means for the parked outcome)
-                idx = next(i for i, x in enumerate(n.body) if isinstance(x, ast.Expr) and isinstance(x.value, ast.Yield))
-                res = []
-                for s2, boc in resume(s1):
-                    s2.g['parked'] = dict(s2.g.get('parked', {})); s2.g['parked'][s2.stack[-1]] = boc
-                    if boc[0] == 'raise':
-                        res.append((s2, boc))
-                    else:
-                        res += self.block(n.body[idx + 1:], s2)
+        for s2, oc2 in self.block(n.body, st):
+            if oc2[0] == 'raise' and n.handlers:
+                after = self.handlers(n, s2, oc2)
+            elif oc2[0] == 'normal' and n.orelse:
+                after = self.block(n.orelse, s2)
             else:
-                res = [(s1, oc)]
-            for s2, oc2 in res:
-                if oc2[0] == 'raise' and n.handlers:
-                    after = self.handlers(n, s2, oc2)
-                elif oc2[0] == 'normal' and n.orelse:
-                    after = self.block(n.orelse, s2)
+                after = [(s2, oc2)]
+            for s3, oc3 in after:
+                if n.finalbody:
+                    if oc3[0] == 'raise': s3.excstack.append(oc3[1])
+                    for s4, oc4 in self.block(n.finalbody, s3):
+                        if oc3[0] == 'raise': s4.excstack.pop()
+                        outs.append((s4, oc4 if oc4[0] != 'normal' else oc3))
                 else:
-                    after = [(s2, oc2)]
-                for s3, oc3 in after:
-                    if n.finalbody:
-                        if oc3[0] == 'raise': s3.excstack.append(oc3[1])
-                        for s4, oc4 in self.block(n.finalbody, s3):
-                            if oc3[0] == 'raise': s4.excstack.pop()
-                            outs.append((s4, oc4 if oc4[0] != 'normal' else oc3))
-                    else:
-                        outs.append((s3, oc3))
+                    outs.append((s3, oc3))
         return outs
 
     def s_With(self, n, st):
@@ -1037,6 +1069,9 @@ class Exec(object):
     def call_value(self, st, f, args, kwargs, node=None, star=None, dstar=None):
         from .calls import call_value
         return call_value(self, st, f, args, kwargs, node, star, dstar)
+
+
+EXCARGS = z3.Function('exception_args', z3.IntSort(), SeqV)
 
 
 BUILTINS = {'len', 'isinstance', 'hasattr', 'callable', 'str', 'repr', 'int', 'float', 'list', 'dict', 'tuple', 'iter', 'next', 'any', 'all',
